@@ -482,6 +482,57 @@ def h6_illtyped(timeout=150, **kw):
 
 
 # -------------------------------------------------------------------------------------------- replay on the real code (floats)
+# -------------------------------------------------------------------------------------------- H7 colour operators
+COL_OPS = [("g", 1), ("rg", 3), ("k", 4), ("G", 1), ("RG", 3), ("K", 4), ("cs:DeviceGray", 0), ("cs:DeviceRGB", 0), ("cs:DeviceCMYK", 0), ("CS:DeviceRGB", 0), ("CS:DeviceCMYK", 0),
+           ("sc", 4), ("scn", 4), ("SC", 4), ("SCN", 4), ("q", 0), ("Q", 0)]
+
+
+def h7_colour(K=3, timeout=200, part=None, **kw):
+    """every program of K colour / save / restore operators (symbolic choice, symbolic operands), then a glyph: its fill and stroke colour are what ISO 32000-1 8.6.8 assigns
+    (sc/scn/SC/SCN take as many operands as the current colour space of *that* kind has components)"""
+    shims = _shims()
+    import pdfminer.pdfinterp as pi
+    from harness import C16
+
+    def fn(ex):
+        W = {c: 500 for c in CODES}
+        it, dev = setup(I6, W)
+        md = C16.Model()
+        prog = []
+        run_real(it, "BT", [])
+        run_real(it, "Tf", [10])
+        for k in range(K):
+            o, n = COL_OPS[ex.choice(len(COL_OPS), "op%d" % k)]
+            name, _, arg = o.partition(":")
+            if name in ("sc", "scn", "SC", "SCN"):
+                n = md.ncs if name in ("sc", "scn") else md.scs            # a well-formed program supplies the components of the current space
+            a = [arg] if arg else [ex.real("a%d_%d" % (k, i), 0, 1) for i in range(n)]
+            prog.append((name, a))
+            info = {"prog": [(nm, [x if isinstance(x, str) else "sym" for x in aa]) for nm, aa in prog], "args": [list(aa) for _, aa in prog]}
+            try:
+                C16.real_state(it, name, a)
+            except symx.Violation:
+                raise
+            except Exception as e:
+                ex.require(False, "operator %s raised %s: %s" % (name, type(e).__name__, e), **info)
+            md.state_op(name, a)
+        run_real(it, "Tj", [])
+        gl = glyphs_of(dev.cur_item)
+        ex.require(len(gl) >= 1, "no glyph reported", **info)
+        g = gl[0]
+        ex.require(SB(z3.And(C16.col_eq(g.graphicstate.ncolor, md.nc), C16.col_eq(g.graphicstate.scolor, md.sc))),
+                   "fill / stroke colour of the glyph differs: got %r / %r" % (g.graphicstate.ncolor, g.graphicstate.scolor), **info)
+        ex.require(not it.argstack, "operands left on the stack: %r" % (it.argstack,), **info)
+
+    def conc(m, info):
+        g = lambda x: x if isinstance(x, str) else symx.mval(m, x)
+        return {"prog": [[nm, [g(x) for x in aa]] for (nm, _), aa in zip(info["prog"], info["args"])]}
+    P = pi.PDFPageInterpreter
+    return core.run_symx("H7_colour", fn, [P.do_g, P.do_rg, P.do_k, P.do_G, P.do_RG, P.do_K, P.do_cs, P.do_CS, P.do_sc, P.do_scn, P.do_SC, P.do_SCN, P.do_q, P.do_Q],
+                         {"program": "BT, Tf, %d operators from %s, Tj" % (K, " ".join(o for o, _ in COL_OPS)), "operands": "symbolic reals in [0,1]"}, timeout, concretize=conc,
+                         shims={"namespace_shims": shims}, part=part)
+
+
 def replay(harness, inp):
     if harness in ("H5_split",):
         whole = _run_content([PROGRAM])
@@ -491,6 +542,28 @@ def replay(harness, inp):
             k += n
         got = _run_content(parts)
         return None if got == whole else "content split into %r: glyphs %r, unsplit %r" % (parts, got, whole)
+    if harness == "H7_colour":
+        from harness import C16
+        from lib.core import fl
+        it, dev = setup(I6, {c: 500 for c in CODES})
+        md = C16.Model()
+        run_real(it, "BT", [])
+        run_real(it, "Tf", [10])
+        prog = [(nm, [x if isinstance(x, str) else fl(x) for x in a]) for nm, a in inp["prog"]]
+        for nm, a in prog:
+            try:
+                C16.real_state(it, nm, a)
+            except Exception as e:
+                return "program %r: operator %s raised %r" % (prog, nm, e)
+            md.state_op(nm, a)
+        run_real(it, "Tj", [])
+        g = glyphs_of(dev.cur_item)[0]
+        norm = lambda c: c            # a colour never set is reported as None (the initial black is not materialised by pdfminer: not part of the claim)
+        if g.graphicstate.ncolor != norm(md.nc) or g.graphicstate.scolor != norm(md.sc):
+            return "program %r: glyph fill / stroke colour %r / %r, ISO 32000-1 gives %r / %r" % (prog, g.graphicstate.ncolor, g.graphicstate.scolor, norm(md.nc), norm(md.sc))
+        if it.argstack:
+            return "program %r leaves operands on the stack: %r" % (prog, it.argstack)
+        return None
     if harness == "H6_illtyped":
         base = _run_content([b"q " + H6_PRE + H6_POST])[-3:]
         try:
@@ -610,7 +683,8 @@ def _replay_form(inp, v, g, W, diff):
 
 
 def jobs(tier):
-    J = [Job("H2_spacing", "h2_spacing", {}, 150), Job("H4_form", "h4_form", {}, 200), Job("H5_split", "h5_split", {}, 100), Job("H6_illtyped", "h6_illtyped", {}, 200)]
+    J = [Job("H7_colour:%d" % k, "h7_colour", {"K": 3, "part": [k, 4, 6]}, 300, "H7_colour") for k in range(4)]
+    J += [Job("H2_spacing", "h2_spacing", {}, 150), Job("H4_form", "h4_form", {}, 200), Job("H5_split", "h5_split", {}, 100), Job("H6_illtyped", "h6_illtyped", {}, 200)]
     if tier == "quick":
         for f in range(len(OPS)):
             J.append(Job("H1_programs:K2:%s" % OPS[f], "h1_programs", {"K": 2, "first": f}, 200, "H1_programs"))
